@@ -1623,9 +1623,11 @@ fn parse_expr_unchecked(
                 .get_type_layer(composite_ty_nomod);
 
             // If it is a constant buffer then auto unwrap the inner type
+            let mut is_constant_buffer = false;
             if let ir::TypeLayer::Object(ir::ObjectType::ConstantBuffer(inner)) =
                 composite_tyl_nomod
             {
+                is_constant_buffer = true;
                 composite_ty_nomod = context.module.type_registry.remove_modifier(inner);
                 composite_tyl_nomod = context
                     .module
@@ -1684,6 +1686,12 @@ fn parse_expr_unchecked(
                         Ok(StructMemberValue::Variable(ty, id, member_index)) => {
                             let composite = Box::new(composite_ir);
                             let member = ir::Expression::StructMember(composite, id, member_index);
+                            // A member of a const object is const
+                            let ty = if composite_mod.is_const && !is_constant_buffer {
+                                context.module.type_registry.make_const(ty)
+                            } else {
+                                ty
+                            };
                             let ety = ExpressionType(ty, composite_ety.1);
                             Ok(TypedExpression::Value(member, ety))
                         }
